@@ -38,7 +38,7 @@ theorem unframe_frame (i : Item) (h : i.WF) (rest : Bytes) :
   have l1 := be64_length dom.length
   have l2 := be64_length data.length
   simp only [frame, unframe, List.cons_append, List.append_assoc]
-  simp [lparen, rparen, l1, l2, List.take_append, List.drop_append, unbe_be64 _ h1, unbe_be64 _ h2]
+  simp [lparen, rparen, l1, l2, unbe_be64 _ h1, unbe_be64 _ h2]
 
 theorem frames_append (xs ys : List Item) : frames (xs ++ ys) = frames xs ++ frames ys := by
   induction xs with
